@@ -3,7 +3,7 @@ CONSTANTS
   NEnt = 3
   MaxVal = 2
   MaxValLast = 1
-  MaxDoc = 2
+  MaxDoc = 1
   Limits = {99, 0, 1, 3}
   Sites = {"content", "attr", "attdef"}
   ScnSet = {"IG", "DG"}
